@@ -39,7 +39,7 @@ ASSUMPTIONS = ['only strings are fed (the pipeline feeds internal_hash hex strin
                '(relative std of the linear-counting estimate is <= 0.3 % in this range, so 2 % is > 6 sigma)',
                'value families are injective by construction, so the model distinct count is the number of fresh indices']
 
-FAMILIES = ['hex', 'v', 'uni', 'dec8', 'hexseq', 'sha64', 'nl', 'cyr']
+FAMILIES = ['hex', 'v', 'uni', 'dec8', 'hexseq', 'sha64', 'nl', 'cyr', 'nul', 'rawdigest']
 _M32 = 0xFFFFFFFF
 CHUNK = 1 << 16
 SHUFFLE_MAX_ADDS = 3 * B      # shuffle segments re-feed everything: skipped (and counted) beyond this many adds
@@ -66,6 +66,15 @@ def make_values(family, salt, idx):
         return [hashlib.sha256(b'%d' % v).hexdigest() for v in x.tolist()]
     if family == 'uni':
         return ['ключ%d値é' % v for v in x.tolist()]
+    if family == 'nul':        # C-string / fixed-width style fields: the value ends in NUL characters (part of the value)
+        return ['id%d\x00' % v if v % 3 else 'id%d\x00\x00' % v for v in x.tolist()]
+    if family == 'rawdigest':  # raw 4-byte binary digests (bytes objects, mostly not valid UTF-8); the mixing below is a bijection on 32 bits
+        y = x & np.uint64(_M32)
+        y = (y * np.uint64(0x9E3779B1)) & np.uint64(_M32)
+        y ^= y >> np.uint64(15)
+        y = (y * np.uint64(0x85EBCA77)) & np.uint64(_M32)
+        y ^= y >> np.uint64(13)
+        return [int(v).to_bytes(4, 'big') for v in y.tolist()]
     if family == 'cyr':        # words of a non-Latin script: the values differ ONLY in non-ASCII characters (base-32 digits as Cyrillic letters)
         abc = 'абвгдежзийклмнопрстуфхцчшщъыьэюя'
         out = []
@@ -398,7 +407,7 @@ for _k in ('exact', 'within-2pct', 'duplicate-blind', 'order', 'isolation'):
 
 def run(ctx):
     clauses = [
-        Clause('C14/big-history', big_history, oracle_big, quick=64, thorough=1280, quick_shards=16, thorough_shards=16),
+        Clause('C14/big-history', big_history, oracle_big, quick=112, thorough=1280, quick_shards=16, thorough_shards=16),
         Clause('C14/replay-heavy', replay_heavy_history, oracle_big, quick=8, thorough=160, quick_shards=8, thorough_shards=16),
         Clause('C14/small-history', small_history, oracle_small, quick=600, thorough=30000, quick_shards=4,
                thorough_shards=16),
